@@ -975,4 +975,91 @@ theorem shutdown_completes (o : ExitOrder) (s : State) (h : Inv o s) (hl : LInv 
   rw [← hc] at this
   exact this
 
+/-! ### an answered future is never dropped silently -/
+
+/-- the oneshot of ticket `t` is sent on (`complete`) — or found without a receiver (`dropped`) -/
+def Answered (t : Ticket) (effs : List Effect) : Prop :=
+  ∃ o, Effect.complete t o ∈ effs ∨ Effect.dropped t o ∈ effs
+
+theorem answered_completeIfAlive (st : Core) (t : Ticket) (o : Outcome) : Answered t (st.completeIfAlive t o) := by
+  unfold Core.completeIfAlive
+  split
+  · exact ⟨o, Or.inl (by simp)⟩
+  · exact ⟨o, Or.inr (by simp)⟩
+
+theorem answered_completeSubscribe (st : Core) (r : Response) (uid : Id) (t : Ticket) (um : Text) :
+    Answered t (completeSubscribe st r uid t um).2 := by
+  unfold completeSubscribe
+  cases r.payload with
+  | error e => exact answered_completeIfAlive st t _
+  | result raw =>
+    simp only
+    cases decodeSubId raw with
+    | none => exact answered_completeIfAlive st t _
+    | some s =>
+      simp only
+      cases st.mgr.insertSubscription r.id uid s st.chans.length um with
+      | none => exact answered_completeIfAlive st t _
+      | some m' =>
+        simp only
+        by_cases hal : st.alive t = true
+        · simp only [hal, if_true]; exact ⟨.subscribed st.chans.length s, Or.inl (by simp)⟩
+        · simp only [hal, Bool.false_eq_true, if_false]
+          unfold abandonedSubscribe
+          exact ⟨.subscribed st.chans.length s, Or.inr (by simp)⟩
+
+/-- a single response that is handled without a fatal error and bears the id under which a call or a
+subscribe waits: the waiting future's oneshot is sent on in this very step, whatever the payload -/
+theorem answered_processSingleResponse (st st' : Core) (r : Response) (effs : List Effect) (t : Ticket)
+    (hp : processSingleResponse st r = .ok (st', effs))
+    (hw : alookup r.id st.mgr.requests = some (.pendingCall (some t)) ∨
+          ∃ uid um, alookup r.id st.mgr.requests = some (.pendingSub uid t um)) :
+    Answered t effs := by
+  unfold processSingleResponse at hp
+  rcases hw with hw | ⟨uid, um, hw⟩
+  · have hs : st.mgr.requestStatus r.id = .pendingCall := by simp [Mgr.requestStatus, hw]
+    simp only [hs] at hp
+    have hc : st.mgr.completePendingCall r.id = some ({ st.mgr with requests := aerase r.id st.mgr.requests }, some t) := by
+      simp [Mgr.completePendingCall, hw]
+    simp [hc] at hp
+    rw [← hp.2]
+    exact answered_completeIfAlive st t _
+  · have hs : st.mgr.requestStatus r.id = .pendingSub := by simp [Mgr.requestStatus, hw]
+    simp only [hs] at hp
+    have hc : st.mgr.completePendingSubscription r.id =
+        some ({ st.mgr with requests := aerase r.id st.mgr.requests }, uid, t, um) := by
+      simp [Mgr.completePendingSubscription, hw]
+    simp [hc] at hp
+    have := answered_completeSubscribe { st with mgr := { st.mgr with requests := aerase r.id st.mgr.requests } } r uid t um
+    rw [hp] at this
+    exact this
+
+/-- with a call or subscribe waiting under the response's id the handler cannot fail: it returns `Ok` -/
+theorem processSingleResponse_ok_of_waiting (st : Core) (r : Response) (t : Ticket)
+    (hw : alookup r.id st.mgr.requests = some (.pendingCall (some t)) ∨
+          ∃ uid um, alookup r.id st.mgr.requests = some (.pendingSub uid t um)) :
+    ∃ st' effs, processSingleResponse st r = .ok (st', effs) := by
+  unfold processSingleResponse
+  rcases hw with hw | ⟨uid, um, hw⟩
+  · have hs : st.mgr.requestStatus r.id = .pendingCall := by simp [Mgr.requestStatus, hw]
+    have hc : st.mgr.completePendingCall r.id = some ({ st.mgr with requests := aerase r.id st.mgr.requests }, some t) := by
+      simp [Mgr.completePendingCall, hw]
+    simp only [hs, hc]
+    exact ⟨_, _, rfl⟩
+  · have hs : st.mgr.requestStatus r.id = .pendingSub := by simp [Mgr.requestStatus, hw]
+    have hc : st.mgr.completePendingSubscription r.id =
+        some ({ st.mgr with requests := aerase r.id st.mgr.requests }, uid, t, um) := by
+      simp [Mgr.completePendingSubscription, hw]
+    simp only [hs, hc]
+    exact ⟨_, _, rfl⟩
+
+theorem answered_handleBack (st : Core) (raw : Text) (r : Response) (t : Ticket) (hd : decodeResponse raw = some r)
+    (hw : alookup r.id st.mgr.requests = some (.pendingCall (some t)) ∨
+          ∃ uid um, alookup r.id st.mgr.requests = some (.pendingSub uid t um)) :
+    (handleBack st raw).fatal = none ∧ Answered t (handleBack st raw).effs := by
+  obtain ⟨st', effs, hp⟩ := processSingleResponse_ok_of_waiting st r t hw
+  rw [handleBack_single_response st raw r hd, hp]
+  exact ⟨rfl, answered_processSingleResponse st st' r effs t hp hw⟩
+
+
 end Jrpc.ClientTasks
